@@ -307,13 +307,15 @@ def run_reader(case, rec):
     spec, opt = case["spec"], case["opt"]
     text = encode_document(prof, spec, opt)
     exp = spec_view(prof, spec)
-    cls = {"str": Tree, "obj": Tree, "obj_pop": Tree, "typed_str": TypedTree, "typed_obj": TypedTree, "fs": serial.FileSystemTree,
+    cls = {"str": Tree, "obj": Tree, "obj_pop": Tree, "typed_str": TypedTree, "typed_obj": TypedTree, "typed_obj_pop": TypedTree, "fs": serial.FileSystemTree,
            "fs_plain": Tree}[prof.name]
     kw = {}
     if prof.name in ("obj", "typed_obj"):
         kw["mapper"] = serial.obj_deserialize_mapper
     elif prof.name == "obj_pop":
         kw["mapper"] = serial.obj_deserialize_mapper_consuming
+    elif prof.name == "typed_obj_pop":
+        kw["mapper"] = serial.typed_deserialize_mapper_consuming
     elif prof.name == "fs_plain":
         kw["mapper"] = serial.FileSystemTree.deserialize_mapper
     elif prof.name in ("str", "typed_str"):
@@ -586,7 +588,7 @@ def writer_cases(draw, tier):
     return {"profile": profile, "spec": draw(serial.tree_spec(profile)), "config": draw(serial.config(profile))}
 
 
-READER_PROFILES = ["str", "obj", "obj_pop", "typed_str", "typed_obj", "fs", "fs_plain"]
+READER_PROFILES = ["str", "obj", "obj_pop", "typed_str", "typed_obj", "typed_obj_pop", "fs", "fs_plain"]
 
 
 @st.composite
@@ -612,7 +614,7 @@ def reader_cases(draw, tier):
         vm = {}
         if p.typed and draw(st.booleans()):
             vm["kind"] = draw(st.permutations(["child", "x", "y", "z"]))
-        if profile in ("obj", "obj_pop", "typed_obj") and draw(st.booleans()):
+        if profile in ("obj", "obj_pop", "typed_obj", "typed_obj_pop") and draw(st.booleans()):
             vm["type"] = draw(st.permutations(["dept", "person"]))
         if vm:
             opt["value_map"] = {k: list(v) for k, v in vm.items()}
